@@ -856,3 +856,92 @@ CURATED = {
     'prefix_cores': 'start S\nenum S { P($P A)  Q($Q C) }\nenum C { A(A)  B(B) }\nstruct A($X $Y)\nstruct B($X $Z)\nterminal T { $P: ()  $Q: ()  $X: ()  $Y: ()  $Z: () }\n',
     'only_comment': '// nothing',
 }
+
+
+# ---------------------------------------------------------------- FIRST-map stress
+
+def gen_first_stress(rng, behaviour=False):
+    """Small rule sets that stress the FIRST / nullable fixpoint: mostly nonterminals on the right-hand sides, many empty
+    productions, mutual and left recursion, declaration order unrelated to dependency order (the fixpoint's passes follow
+    the declaration order, so when a fact arrives — and in which pass nothing else changes — depends on it)."""
+    g = Grammar()
+    nn = rng.randint(2, 6)
+    nt = rng.randint(1, 3)
+    names = pick_names(rng, list(PLAIN_NAMES), nn, avoid=RUST_RESERVED)
+    tnames = pick_names(rng, list(TERMINAL_NAMES), nt, avoid=set(names) | RUST_RESERVED)
+    g.tenum = 'Tok'
+    g.tenum_attrs = ['#[derive(Debug)]'] if behaviour else []
+    g.terminals = [(t, '()') for t in tnames]
+    g.start = rng.choice(names)
+    p_nt = rng.choice([0.5, 0.7, 0.85])
+    p_empty = rng.choice([0.1, 0.25, 0.4])
+
+    def rhs():
+        if rng.random() < p_empty:
+            return []
+        return [('N', rng.choice(names)) if rng.random() < p_nt else ('T', rng.choice(tnames))
+                for _ in range(rng.choice([1, 1, 2, 2, 2, 3, 3, 4]))]
+
+    for name in names:
+        k = rng.choice([1, 1, 2, 2, 3])
+        if k == 1:
+            g.nts.append(_mk('struct', name, [(None, _wrap(rng, rhs()))], behaviour))
+        else:
+            seen, variants = set(), []
+            for i in range(k):
+                for _ in range(8):
+                    r = rhs()
+                    if tuple(r) not in seen:
+                        seen.add(tuple(r))
+                        variants.append(('V%d' % i, _wrap(rng, r)))
+                        break
+            g.nts.append(_mk('enum', name, variants, behaviour))
+    rng.shuffle(g.nts)
+    return g
+
+
+def first_reference(g):
+    """FIRST and nullable by the defining rules (least fixpoint, chaotic iteration until nothing changes)."""
+    first = {nt['name']: set() for nt in g.nts}
+    nullable = {nt['name']: False for nt in g.nts}
+    rules = [(lhs, fs_syms(fs)) for lhs, _, fs in g.rules()]
+    changed = True
+    while changed:
+        changed = False
+        for lhs, rhs in rules:
+            allnull = True
+            for k, x in rhs:
+                if k == 'T':
+                    if x not in first[lhs]:
+                        first[lhs].add(x)
+                        changed = True
+                    allnull = False
+                    break
+                add = first.get(x, set()) - first[lhs]
+                if add:
+                    first[lhs] |= add
+                    changed = True
+                if not nullable.get(x, False):
+                    allnull = False
+                    break
+            if allnull and not nullable[lhs]:
+                nullable[lhs] = True
+                changed = True
+    return first, nullable
+
+
+def first_probe_variants(g, a, behaviour=False):
+    """Grammars around g in which FIRST(a) / nullable(a) is consulted by the LALR construction: a fresh start production
+    puts `a` right after a fresh nonterminal (and before a fresh terminal), declared after or before everything else."""
+    out = []
+    for tail in (False, True):
+        for front in (False, True):
+            h = Grammar()
+            h.tenum_attrs = list(g.tenum_attrs)
+            h.tenum, h.terminals = g.tenum, list(g.terminals) + [('Yy9', '()')] + ([('Zz9', '()')] if tail else [])
+            new = [_mk('struct', 'Top9', [(None, ('tuple', [(True, ('N', 'Yn9')), (True, ('N', a))] + ([(True, ('T', 'Zz9'))] if tail else [])))], behaviour),
+                   _mk('struct', 'Yn9', [(None, ('tuple', [(True, ('T', 'Yy9'))]))], behaviour)]
+            h.nts = (new + list(g.nts)) if front else (list(g.nts) + new)
+            h.start = 'Top9'
+            out.append(h)
+    return out
